@@ -27,19 +27,47 @@ func init() {
 			"unbound slot, typep against every class, class-of, a generic function with one :before and one primary method per class, and " +
 			"reader/accessor/(setf accessor)/writer on two instances; observations are judged by the oracle and compared across orders; " +
 			"histories of a redefinition with indirect subclasses are run 3x (Go map order in classChanged, S4); " +
-			"a case is non-trivial when it has at least one superclass edge or a redefinition",
+			"a case is non-trivial when it has at least one superclass edge or a redefinition. " +
+			"Sixth round: a class' option string may carry :default-initargs (third field: the initargs that get a default FORM, which logs its evaluation) and " +
+			":allocation :class (slot letter c); the redefinition kinds include adding / dropping :default-initargs and repeating the definition unchanged; " +
+			"a case with flag x runs the EXTENDED probes in every order: g gets an :around (calling the next method), :before, primary and :after method per class, " +
+			"initialize-instance and shared-initialize get an :after method per class (order + the slots they see), subtypep between all classes, " +
+			"slot-makunbound / reader on the unbound slot / (setf slot-value) / with-slots read and setq on one of two instances per class and slot, " +
+			"a class slot written through one instance and read through another and through instances of the other classes, " +
+			"change-class of an instance of every class to every other class (class-of, typep, dispatch, slots kept / gained / lost); " +
+			"with flags wx the instance of every usable class made BEFORE the redefinition is kept and probed afterwards: class-of, the precedence list of its class, " +
+			"typep, and the generic call both after and before a new instance of that class name was called (a case with flag x is run once per order; its twin without x carries the repetitions); " +
+			"family misc: 14 hand-written situations (accessor names shared between classes or with a user's generic function, writer of a superclass on an instance of a " +
+			"shadowing subclass, find-class / class-name around a redefinition, standard-object / a built-in class as superclass), every order of their defclass forms",
 		Assumptions: []string{
 			"writers are called slip's documented way, (writer object value)",
 			"typep against t is not asked (slip reads 't as the true object, which typep rejects); t is checked in the precedence list only",
 			"when two supplied initargs name the same slot either value or a Lisp error is accepted (statement silent)",
 			"slot-value of an unbound slot must signal some Lisp error (the statement only says the slot stays unbound)",
 			"the relative order of two indirect ancestors is not prescribed; only equality across definition orders is demanded there",
+			":default-initargs are read as Common Lisp defines them (CLHS 7.1.3): a default is a supplied initarg for the class and every subclass, the most specific class wins; " +
+				"the form must be evaluated during the make-instance call that uses it (FuncDoc of defclass: 'evaluated on each call'); extra evaluations are not counted; " +
+				"two defaults (or a default and nothing else) naming one slot through different initargs: either value; a default for an initarg no slot declares is not enumerated",
+			"a slot is located where its MOST SPECIFIC declaration says (:allocation :class = one value for all instances of that class); whether that value is shared with " +
+				"sub- or superclasses, and whether a further make-instance re-evaluates the initform into it (slip) or leaves it (Common Lisp), is not prescribed",
+			"a reader applied to an unbound slot may signal or return slip's unbound marker, but not a value",
+			"instances made before a redefinition: only consistency is demanded - typep and dispatch follow (class-precedence (class-of x)); for an instance of a SUBCLASS of the " +
+				"redefined class that list must be the class' current one (defclass documents that instances of the redefined class itself keep the original class); their slots are not judged",
+			"change-class (slip's own test pins Common Lisp's rule on flat classes): slots of the new class exist, common slots keep their value, new slots get the initform or stay unbound, other slots are gone",
+			":after methods on initialize-instance / shared-initialize take (x &rest args): slip passes the initargs as ONE list, so &key there is not usable (reported, not judged)",
 		},
 		Enumerate: enumerate,
 		Exec:      exec,
 		Required: []string{"forward-ref-history", "forward-ref-indirect-ancestor", "diamond", "redundant-direct", "shadowed-slot", "inherited-initform",
 			"shared-initarg", "two-initargs-one-slot", "redef-direct-subclass", "redef-indirect-subclass", "redef-before-superclass-defined",
-			"warm-dispatch", "accessor-checked", "unbound-slot-checked", "mid-history-precedence", "explicit-nil-initarg"},
+			"warm-dispatch", "accessor-checked", "unbound-slot-checked", "mid-history-precedence", "explicit-nil-initarg",
+			// sixth round
+			"default-initarg-inherited", "default-initarg-at-two-levels", "default-beats-more-specific-initform", "default-initargs-redefined",
+			"class-slot-inherited", "class-slot-shadows-less-specific-declaration", "class-slot-shadowed-by-instance-slot",
+			"several-initargs-one-slot", "initarg-for-slots-at-different-levels-of-a-diamond",
+			"slot-ops-on-shadowed-slot", "slot-ops-on-inherited-slot", "init-after-methods-at-several-levels", "around-and-after-methods-at-several-levels",
+			"subtypep-checked", "change-class-checked", "identical-redefinition", "middle-class-redefined", "diamond-leg-redefined",
+			"old-instance-of-redefined-class-probed", "old-instance-of-subclass-whose-precedence-list-changes", "misc-checked"},
 		Bound:    bound,
 		Selftest: selftest,
 	})
@@ -47,7 +75,7 @@ func init() {
 
 func bound(tier string) string {
 	if tier == engine.Thorough {
-		return "no redefinition: 1 class and both 2-class DAGs x full slot alphabet (32 option pairs for slots s,u); all 10 3-class DAGs x 13-pair curated alphabet; " +
+		return sixthBound(true) + " OLDER FAMILIES: no redefinition: 1 class and both 2-class DAGs x full slot alphabet (32 option pairs for slots s,u); all 10 3-class DAGs x 13-pair curated alphabet; " +
 			"all 160 4-class DAGs x 3-pair alphabet; initform nil: 1-3 classes x 5-pair alphabet; 10 five-class chain/diamond shapes x 2-pair alphabet; " +
 			"every permutation of the defclass forms each (up to 120). " +
 			"Redefinition of any one class (slot s given a new initform, all slots removed, initarg instead of initform, slot u added, superclasses reversed / first dropped / one added) " +
@@ -56,7 +84,7 @@ func bound(tier string) string {
 			"All subsets of valid initargs (a, b, shared k). CUT relative to the design (time, measured on a machine shared with 10 other harness builds): 4 classes x 3-pair instead of richer alphabets; " +
 			"5 classes restricted to 10 shapes x 2-pair alphabet; 4-class redefinition restricted to one slot alphabet entry and <= 2 superclasses."
 	}
-	return "no redefinition: 1 class x full slot alphabet (32 option pairs for slots s,u); both 2-class DAGs x 13-pair curated alphabet; all 10 3-class DAGs x 8-pair alphabet; " +
+	return sixthBound(false) + " OLDER FAMILIES: no redefinition: 1 class x full slot alphabet (32 option pairs for slots s,u); both 2-class DAGs x 13-pair curated alphabet; all 10 3-class DAGs x 8-pair alphabet; " +
 		"all 160 4-class DAGs with slot s :initform in every class; initform nil: 1-2 classes x 5-pair, 3 classes x 3-pair alphabet; every permutation of the defclass forms each. " +
 		"Redefinition of any one class (7 kinds) at every later point of every order: 2-class DAGs x 3-pair alphabet, 3-class DAGs x 2-pair alphabet, warm and cold dispatch cache; " +
 		"redefinition of the TOP class of 4 four-class shapes (diamond in both middle orders, diamond + direct top, chain + direct top) x 2-pair alphabet x every applicable kind x all 60 orders (cold; warm for one slot assignment). " +
@@ -121,7 +149,7 @@ func runHistory(w world, c *caseSpec, hist []int) histRun {
 			}
 		}
 	}
-	hr.final = observeFinal(w, c.finalDefs())
+	hr.final = observeFinal(w, c.finalDefs(), c.ext)
 	return hr
 }
 
@@ -171,11 +199,16 @@ func tagOf(c *caseSpec, fin []classDef, h []int, i int) string {
 }
 
 var instanceAspects = map[string]bool{"make-instance": true, "slot-init": true, "accessor": true, "slot-unbound": true}
-var shapeAspects = map[string]bool{"precedence": true, "precedence-mid-history": true, "typep": true, "dispatch": true, "class-of": true}
+var shapeAspects = map[string]bool{"subtypep": true, "precedence": true, "precedence-mid-history": true, "typep": true, "dispatch": true, "class-of": true}
 
 func judgeCase(c *caseSpec, mk func() world, reps int, res *engine.Result) (firstObs obsMap) {
 	hists := c.histories()
 	fin := c.finalDefs()
+	jc := judgeCtx{ext: c.ext, redef: -1}
+	if c.redef != nil {
+		jc.redef = c.redef.r
+		jc.redefKind = redefKind(c.defs[c.redef.r], c.redef.def)
+	}
 	aggs := map[string]*sigAgg{}
 	aspectFails := map[string]map[int]bool{}
 	failedKeys := map[string]bool{}
@@ -221,11 +254,14 @@ func judgeCase(c *caseSpec, mk func() world, reps int, res *engine.Result) (firs
 		fixed := false
 		var core string
 		switch {
+		case f.short != "":
+			core = f.short
+			fixed = true
 		case f.shared:
 			// the case contains the trigger "one supplied initarg names two slots" and the slot named by it was not filled
 			core = "aspect=slot-init kind=shared-initarg-slot-not-filled got=" + f.got
 			fixed = true
-		case aspect == "dispatch" && c.redef != nil && c.warm && f.obs != "" && f.obs == dispatchUnder(c.defs, f.cls):
+		case aspect == "dispatch" && c.redef != nil && c.warm && f.obs != "" && f.obs == dispatchUnder(c.defs, f.cls, c.ext):
 			// the effective method is the one computed before the redefinition
 			aspect, kind, extra = "dispatch-after-redefinition", "effective-method-as-before-redefinition", ""
 		case stale && instanceAspects[aspect]:
@@ -276,17 +312,20 @@ func judgeCase(c *caseSpec, mk func() world, reps int, res *engine.Result) (firs
 	for hi, h := range hists {
 		for rep := 0; rep < reps; rep++ {
 			w := mk()
+			if c.ext {
+				w.setExt()
+			}
 			hr := runHistory(w, c, h)
 			w.close()
 			finals[hi] = append(finals[hi], hr.final)
 			if firstObs == nil {
 				firstObs = hr.final
 			}
-			fs := judgeFinal(fin, hr.final)
+			fs := judgeFinal(fin, hr.final, jc)
 			var oldFail map[string]bool
 			if c.redef != nil && 0 < len(fs) {
 				oldFail = map[string]bool{}
-				for _, of := range judgeFinal(c.defs, hr.final) {
+				for _, of := range judgeFinal(c.defs, hr.final, jc) {
 					if !of.shared { // the old definitions seen through the shared-initarg behaviour still count as "old"
 						oldFail[of.key] = true
 					}
@@ -306,15 +345,22 @@ func judgeCase(c *caseSpec, mk func() world, reps int, res *engine.Result) (firs
 		keysSorted = append(keysSorted, k)
 	}
 	sort.Strings(keysSorted)
-	aspectOf := map[byte]string{'P': "precedence", 'M': "make-instance", 'S': "slot-init", 'U': "slot-unbound", 'T': "typep", 'C': "class-of", 'D': "dispatch", 'A': "accessor"}
+	aspectOf := map[byte]string{'B': "subtypep", 'I': "init-methods", 'O': "slot-ops", 'K': "class-slot", 'X': "change-class", 'W': "old-instance",
+		'E': "default-initargs", 'P': "precedence", 'M': "make-instance", 'S': "slot-init", 'U': "slot-unbound", 'T': "typep", 'C': "class-of", 'D': "dispatch", 'A': "accessor"}
 	for _, k := range keysSorted {
 		var kc int
 		fmt.Sscanf(k[2:], "%d", &kc)
 		if failedKeys[k] || failedClass[kc] {
 			continue // already reported against the statement (S3)
 		}
-		if (k[0] == 'M' || k[0] == 'S') && multiKey(fin, kc, k) {
+		if (k[0] == 'M' || k[0] == 'S' || k[0] == 'E') && multiKey(fin, kc, k) {
 			continue // two supplied initargs name one slot: a set of outcomes is accepted, so orders may differ (S2)
+		}
+		if strings.ContainsRune("SUAIOKXW", rune(k[0])) && (classSlotClass(c.defs, kc) || classSlotClass(fin, kc)) {
+			continue // a class slot keeps what earlier instances (made before the redefinition, or by earlier probes) stored in it: its value may depend on the history
+		}
+		if strings.ContainsRune("AIOKXW", rune(k[0])) && multiClass(fin, kc) {
+			continue // the instances these probes start from are made with two default initargs naming one slot: either may win (S2)
 		}
 		ref := finals[0][0][k]
 		for hi := range hists {
@@ -388,26 +434,57 @@ func judgeCase(c *caseSpec, mk func() world, reps int, res *engine.Result) (firs
 // supplied initargs name the same slot.
 func multiKey(defs []classDef, i int, key string) bool {
 	p := strings.Split(key, "|")
-	if len(p) < 3 || p[2] == "-" {
+	if len(p) < 3 {
 		return false
 	}
-	sigma := strings.Split(p[2], "+")
+	var sigma []string
+	if p[2] != "-" {
+		sigma = strings.Split(p[2], "+")
+	}
 	order := canonPrec(defs, i)
 	for _, sl := range slotNames {
-		if expectSlot(defs, order, sl, sigma).src == "initarg-multi" {
+		if src := expectSlot(defs, order, sl, sigma).src; src == "initarg-multi" || src == "default-multi" {
 			return true
 		}
 	}
 	return false
 }
 
+// classSlotClass: some declaration of some slot of class i, own or inherited, says :allocation :class.
+func classSlotClass(defs []classDef, i int) bool {
+	order := canonPrec(defs, i)
+	for _, sl := range slotNames {
+		if classAlloc(defs, order, sl) {
+			return true
+		}
+	}
+	return false
+}
+
+// multiClass: an instance of class i made without initargs, or with the initargs of the accessor probes, has a slot that two
+// default initargs name.
+func multiClass(defs []classDef, i int) bool {
+	if !usesDefaults(defs) {
+		return false
+	}
+	order := canonPrec(defs, i)
+	for _, sigma := range [][]string{nil, accSigma(defs, i)} {
+		for _, sl := range slotNames {
+			if expectSlot(defs, order, sl, sigma).src == "default-multi" {
+				return true
+			}
+		}
+	}
+	return false
+}
+
 // dispatchUnder: the dispatch observation the canonical reading of defs gives for class i.
-func dispatchUnder(defs []classDef, i int) string {
+func dispatchUnder(defs []classDef, i int, ext bool) string {
 	var tr []string
 	for _, x := range canonPrec(defs, i) {
 		tr = append(tr, cname(x))
 	}
-	return "val=" + cname(i) + " trace=" + strings.Join(tr, ",")
+	return expectedDispatch(tr, ext)
 }
 
 // ---------------------------------------------------------------- Exec
@@ -451,8 +528,15 @@ func exec(spec string) (res engine.Result) {
 		res.Outcome = val + " trace=" + strings.Join(tr, ",") + " err=" + err.String()
 		return
 	}
+	if strings.HasPrefix(spec, "lispf:") { // development probe: every top-level form of a file, one scope
+		res.Outcome = probeFile(spec[6:])
+		return
+	}
 	if strings.HasPrefix(spec, "nilarg|") {
 		return execNilarg(spec)
+	}
+	if strings.HasPrefix(spec, "misc|") {
+		return execMisc(spec)
 	}
 	c, err := parseCase(spec)
 	if err != nil {
@@ -460,8 +544,8 @@ func exec(spec string) (res engine.Result) {
 		return
 	}
 	reps := 1
-	if hasIndirectDescendant(c) {
-		reps = 3
+	if hasIndirectDescendant(c) && !c.ext {
+		reps = 3 // (a case with the extended probes is run once per order: its plain twin carries the repetitions)
 	}
 	first := judgeCase(c, func() world { return newRealWorld(c.n) }, reps, &res)
 	counters(c, &res)
@@ -525,6 +609,7 @@ func counters(c *caseSpec, res *engine.Result) {
 	if 0 < edges || c.redef != nil {
 		res.Nontrivial = true
 	}
+	countersSixth(c, res)
 	for _, h := range c.histories() {
 		pos := map[int]int{}
 		for p, f := range h {
@@ -591,40 +676,212 @@ func counters(c *caseSpec, res *engine.Result) {
 	}
 }
 
+// countersSixth: the interactions the families of the sixth round are about.
+func countersSixth(c *caseSpec, res *engine.Result) {
+	fin := c.finalDefs()
+	for _, sets := range [][]classDef{c.defs, fin} {
+		for i := 0; i < c.n; i++ {
+			order := canonPrec(sets, i)
+			anc, _ := ancestors(sets, nil, i)
+			for _, sl := range slotNames {
+				w := expectSlot(sets, order, sl, nil)
+				if !w.exists {
+					continue
+				}
+				if strings.HasPrefix(w.src, "default") {
+					res.Hit("default-initarg-used")
+					if w.defFrom == "inherited" {
+						res.Hit("default-initarg-inherited")
+					}
+					res.Hit("default-overridden-by-explicit-initarg") // every initarg subset is passed
+					// the most specific initform sits in a class more specific than the one that gives the default
+					fpos, dpos := -1, -1
+					for k, x := range order {
+						if sd, ok := sets[x].slot(x, sl); ok && sd.form != 0 && fpos < 0 {
+							fpos = k
+						}
+						if sets[x].dopt != "" && dpos < 0 {
+							for _, a := range argSlotsKeys(sets, i, sl) {
+								if _, has := sets[x].defaults(x)[a]; has {
+									dpos = k
+								}
+							}
+						}
+					}
+					if 0 <= fpos && fpos < dpos {
+						res.Hit("default-beats-more-specific-initform")
+					}
+				}
+				for _, a := range argSlotsKeys(sets, i, sl) {
+					givers := 0
+					for _, x := range order {
+						if _, has := sets[x].defaults(x)[a]; has {
+							givers++
+						}
+					}
+					if 1 < givers {
+						res.Hit("default-initarg-at-two-levels")
+					}
+				}
+				if w.src == "default-multi" {
+					res.Hit("two-defaults-one-slot")
+				}
+				if classAlloc(sets, order, sl) {
+					switch {
+					case w.shared && declRel(sets, i, sl) == "inherited":
+						res.Hit("class-slot-inherited")
+					case w.shared && declRel(sets, i, sl) == "shadowed":
+						res.Hit("class-slot-shadows-less-specific-declaration")
+					case w.shared:
+						res.Hit("class-slot-own")
+					default:
+						res.Hit("class-slot-shadowed-by-instance-slot")
+					}
+				}
+				if c.ext && declRel(sets, i, sl) == "shadowed" {
+					res.Hit("slot-ops-on-shadowed-slot")
+				}
+				if c.ext && declRel(sets, i, sl) == "inherited" {
+					res.Hit("slot-ops-on-inherited-slot")
+				}
+				if len(argSlotsKeys(sets, i, sl)) > 1 {
+					res.Hit("several-initargs-one-slot")
+				}
+			}
+			if shape(sets, i) == "diamond" {
+				for _, a := range validArgs(sets, i) {
+					if 1 < len(argSlots(sets, i, a)) {
+						res.Hit("initarg-for-slots-at-different-levels-of-a-diamond")
+					}
+				}
+			}
+			if c.ext && 0 < len(anc) {
+				res.Hit("init-after-methods-at-several-levels")
+				res.Hit("around-and-after-methods-at-several-levels")
+				res.Hit("subtypep-checked")
+			}
+			if c.ext && 1 < c.n {
+				res.Hit("change-class-checked")
+			}
+		}
+	}
+	if c.redef == nil {
+		return
+	}
+	r := c.redef.r
+	kind := redefKind(c.defs[r], c.redef.def)
+	if kind == "unchanged" {
+		res.Hit("identical-redefinition")
+	}
+	if strings.HasPrefix(kind, "default-initargs") {
+		res.Hit("default-initargs-redefined")
+	}
+	ancR, _ := ancestors(c.defs, nil, r)
+	if 0 < len(ancR) && hasDescendant(c.defs, r) {
+		res.Hit("middle-class-redefined")
+	}
+	for i := 0; i < c.n; i++ {
+		if shape(c.defs, i) == "diamond" && inInts(r, c.defs[i].supers) && 0 < len(ancR) {
+			res.Hit("diamond-leg-redefined")
+		}
+	}
+	if c.ext && c.warm {
+		res.Hit("old-instance-of-redefined-class-probed")
+		if hasDescendant(c.defs, r) {
+			res.Hit("old-instance-of-subclass-probed")
+			if strings.HasPrefix(kind, "super") {
+				res.Hit("old-instance-of-subclass-whose-precedence-list-changes")
+			}
+		}
+	}
+}
+
+// argSlotsKeys: the initargs declared for the slot at any level.
+func argSlotsKeys(defs []classDef, i int, slot string) []string {
+	var out []string
+	for _, a := range validArgs(defs, i) {
+		if inList(slot, argSlots(defs, i, a)) {
+			out = append(out, a)
+		}
+	}
+	return out
+}
+
 // ---------------------------------------------------------------- oracle-sensitivity self-test (S6)
+
+func hasDescendant(defs []classDef, r int) bool {
+	for i := range defs {
+		if anc, _ := ancestors(defs, nil, i); anc[r] {
+			return true
+		}
+	}
+	return false
+}
 
 func selftest(tier string) (killed, total int, notes []string) {
 	var specs []string
-	enumerate(tier, func(s string) { specs = append(specs, s) })
-	stride := len(specs)/1000 + 1
+	enumerate(tier, func(s string) {
+		if !strings.HasPrefix(s, "nilarg|") && !strings.HasPrefix(s, "misc|") {
+			specs = append(specs, s)
+		}
+	})
+	stride := len(specs)/500 + 1
+	var sample []*caseSpec
+	var sampleSpec []string
+	wx, same := 0, 0
+	for k := range specs {
+		c, err := parseCase(specs[k])
+		if err != nil {
+			continue
+		}
+		take := k%stride == 0
+		if c.ext && c.warm && c.redef != nil && strings.HasPrefix(redefKind(c.defs[c.redef.r], c.redef.def), "super") && hasDescendant(c.defs, c.redef.r) {
+			// the rarest kind of case (instances of a subclass kept across a redefinition that changes its precedence list): every 2nd as well
+			wx++
+			take = take || wx%2 == 0
+		}
+		if c.redef != nil && !c.redef.def.bump && hasDescendant(c.defs, c.redef.r) {
+			same++ // the unchanged redefinition of a class with subclasses: every 3rd as well
+			take = take || same%3 == 0
+		}
+		if take {
+			sample = append(sample, c)
+			sampleSpec = append(sampleSpec, specs[k])
+		}
+	}
 	alive := map[string]bool{}
 	for _, m := range mutants {
 		alive[m] = true
 	}
 	total = len(mutants)
-	checked := 0
+	// the unmutated reference must pass the oracle on every sampled case
 	refBad := ""
-	for k := 0; k < len(specs); k += stride {
-		c, err := parseCase(specs[k])
-		if err != nil {
-			continue
-		}
-		checked++
+	for k, c := range sample {
 		var r engine.Result
 		judgeCase(c, func() world { return newSim(c.n, "") }, 1, &r)
 		if 0 < len(r.Failures) && refBad == "" {
-			refBad = fmt.Sprintf("the oracle rejects the unmutated reference on %s: %s (%s)", specs[k], r.Failures[0].Sig, r.Failures[0].Detail)
+			refBad = fmt.Sprintf("the oracle rejects the unmutated reference on %s: %s (%s)", sampleSpec[k], r.Failures[0].Sig, r.Failures[0].Detail)
 		}
-		for _, m := range mutants {
-			if !alive[m] {
+	}
+	// every mutated reference must be rejected on some sampled case (the cases with the extended probes first: time)
+	nAlive := len(mutants)
+	for _, extFirst := range []bool{true, false} {
+		for k, c := range sample {
+			if c.ext != extFirst || nAlive == 0 {
 				continue
 			}
-			var mr engine.Result
-			mm := m
-			judgeCase(c, func() world { return newSim(c.n, mm) }, 1, &mr)
-			if 0 < len(mr.Failures) {
-				alive[m] = false
-				notes = append(notes, fmt.Sprintf("%s: killed by %s (%s)", m, specs[k], mr.Failures[0].Sig))
+			for _, m := range mutants {
+				if !alive[m] {
+					continue
+				}
+				var mr engine.Result
+				mm := m
+				judgeCase(c, func() world { return newSim(c.n, mm) }, 1, &mr)
+				if 0 < len(mr.Failures) {
+					alive[m] = false
+					nAlive--
+					notes = append(notes, fmt.Sprintf("%s: killed by %s (%s)", m, sampleSpec[k], mr.Failures[0].Sig))
+				}
 			}
 		}
 	}
@@ -635,7 +892,7 @@ func selftest(tier string) (killed, total int, notes []string) {
 			killed++
 		}
 	}
-	notes = append(notes, fmt.Sprintf("unmutated reference judged on %d cases (every %d-th of %d)", checked, stride, len(specs)))
+	notes = append(notes, fmt.Sprintf("unmutated reference judged on %d cases (every %d-th of %d, and every 2nd case with instances of a subclass kept across a redefinition of its superclass list)", len(sample), stride, len(specs)))
 	if refBad != "" {
 		notes = append(notes, refBad)
 		killed = -1
